@@ -718,12 +718,13 @@ def finish_table(res, pending):
             res.disagreement(rec, io, mo, scope='sweep:' + name, line=f'{OPS[fn]} {enc_val(pre + chr(cp) + suf)}')
 
 
-def run_sweeps(ctx, res, level):
+def run_sweeps(ctx, res, level, tables=True):
     """every code point in every position context: the proto / host / port contexts come from the
     facts (the real functions run on all 0x110000 code points, memoised on the source text); the
     `classify_host` contexts are run here (all code points on the thorough tier, the
     decision-relevant subset otherwise)"""
     md = ctx.facts.get('max_str_digits', sys.get_int_max_str_digits())
+    tables_wanted = tables
     tables = ctx.facts.get('tables') if isinstance(ctx.facts, dict) else None
     contexts = facts_c18.CONTEXTS
     if not tables or set(tables) != set(contexts) or \
@@ -738,8 +739,9 @@ def run_sweeps(ctx, res, level):
         n, pend = check_table(ctx, res, name, fn, pre, suf, segments, md)
         total += n
         pending.append(pend)
-    for name, (fn, pre, suf) in contexts.items():
-        one(name, fn, pre, suf, [(0, NCP - 1, [tuple(r) for r in tables[name]])])
+    if tables_wanted:
+        for name, (fn, pre, suf) in contexts.items():
+            one(name, fn, pre, suf, [(0, NCP - 1, [tuple(r) for r in tables[name]])])
     full_classify = level >= 2
     segs = [[0, NCP - 1]] if full_classify else quick_segments(ctx.rng)
     cctx = facts_c18.CLASSIFY_CONTEXTS
@@ -1140,6 +1142,9 @@ def need_model(ctx):
         raise MachineryError('the model driver drv_c18 could not be built (lake build drv_c18)')
 
 
+_DONE = set()       # (source key, scope) of deterministic scopes this process has already passed
+
+
 def run(ctx):
     need_model(ctx)
     init(ctx.repo)
@@ -1148,44 +1153,70 @@ def run(ctx):
     # depth: 0 quick, 1 quick tier asked to look deeper (source drift / broken obligation; has to
     # stay within ~1 minute), 2 thorough
     level = 2 if ctx.tier == 'thorough' else (1 if ctx.deep else 0)
+    key = facts_c18.source_key(ctx.repo, facts_c18.CONTEXTS)
+
+    def once(scope, fn):
+        """the scopes that do not depend on the seed give the same result when lib/vcheck.py runs
+        the harness a second time at depth on the same tree: do them once per process"""
+        if (key, scope) in _DONE:
+            res['scopes'].setdefault('not_repeated_in_second_pass', []).append(scope)
+            return
+        before = (res.n_violations, res.n_disagreements)
+        fn()
+        if before == (res.n_violations, res.n_disagreements):
+            _DONE.add((key, scope))
+
     # (a) corpus of past failures, argument types, lengths around the limits
-    evaluate(ctx, corpus_cases(ctx.verif), res, 'corpus')
-    evaluate(ctx, type_cases(), res, 'argument_types')
-    impl_only_checks(res)
-    evaluate(ctx, length_cases(), res, 'lengths_62_65_252_255')
+    once('fixed', lambda: (evaluate(ctx, corpus_cases(ctx.verif), res, 'corpus'),
+                           evaluate(ctx, type_cases(), res, 'argument_types'),
+                           impl_only_checks(res),
+                           evaluate(ctx, length_cases(), res, 'lengths_62_65_252_255')))
     # (b) every code point in every position context (the facts' tables: oracle + model)
-    full = run_sweeps(ctx, res, level)
+    full = [False]
+    if level == 1 and (key, 'sweeps0') in _DONE:
+        run_sweeps(ctx, res, level, tables=False)       # only what level 1 adds: all classify contexts
+    else:
+        once(f'sweeps{level}', lambda: full.__setitem__(0, run_sweeps(ctx, res, level, tables=True)))
     # (c) the model's regex semantics vs the real engine
     evaluate(ctx, regex_cases(ctx, res, rng), res, 'regex_engine')
     # (d) exhaustive: critical alphabet
     maxlen = 5 if level == 2 and not res.failed else 4
-    done = 0
-    for n in range(0, maxlen + 1):
-        if res.failed and n > 3:
-            break
-        cs = []
-        for t in itertools.product(ALPHABET, repeat=n):
-            s = ''.join(t)
-            cs += [Case('proto', s), Case('host', s), Case('classify', s), Case('port', s)]
-        evaluate(ctx, cs, res, 'alphabet15')
-        done = n
-    res['scopes']['alphabet15_max_len'] = done
+    done = [0, 0]
+
+    def alphabet15():
+        for n in range(0, maxlen + 1):
+            if res.failed and n > 3:
+                break
+            cs = []
+            for t in itertools.product(ALPHABET, repeat=n):
+                s = ''.join(t)
+                cs += [Case('proto', s), Case('host', s), Case('classify', s), Case('port', s)]
+            evaluate(ctx, cs, res, 'alphabet15')
+            done[0] = n
     maxlen2 = 6 if level == 2 and not res.failed else 5
-    done2 = 0
-    for n in range(0, maxlen2 + 1):
-        if res.failed and n > 4:
-            break
-        cs = []
-        for t in itertools.product(ALPHABET2, repeat=n):
-            s = ''.join(t)
-            cs += [Case('split', s), Case('addr', s)]
-            if n <= 4:
-                cs.append(Case('svc', 't+://' + s))
-        evaluate(ctx, cs, res, 'alphabet_addr8')
-        done2 = n
-    res['scopes']['alphabet_addr8_max_len'] = done2
+
+    def alphabet_addr8():
+        for n in range(0, maxlen2 + 1):
+            if res.failed and n > 4:
+                break
+            cs = []
+            for t in itertools.product(ALPHABET2, repeat=n):
+                s = ''.join(t)
+                cs += [Case('split', s), Case('addr', s)]
+                if n <= 4:
+                    cs.append(Case('svc', 't+://' + s))
+            evaluate(ctx, cs, res, 'alphabet_addr8')
+            done[1] = n
+    once(f'alphabet15:{maxlen}', alphabet15)
+    once(f'alphabet_addr8:{maxlen2}', alphabet_addr8)
+    if (key, f'alphabet15:{maxlen}') in _DONE:
+        done[0] = maxlen
+    if (key, f'alphabet_addr8:{maxlen2}') in _DONE:
+        done[1] = maxlen2
+    res['scopes']['alphabet15_max_len'] = done[0]
+    res['scopes']['alphabet_addr8_max_len'] = done[1]
     # (e) exhaustive: integers and their renderings
-    evaluate(ctx, int_cases(-2, 65537), res, 'ints_-2_65537')
+    once('ints', lambda: evaluate(ctx, int_cases(-2, 65537), res, 'ints_-2_65537'))
     evaluate(ctx, ip4_cases(rng, (4000, 2000, 800)[2 - level]), res, 'ipv4_concrete')
     # (f) generated objects, strings from and near the grammar, equality
     big = not res.failed
@@ -1202,9 +1233,9 @@ def run(ctx):
     # report the shortest failing input first
     res['violations'].sort(key=lambda v: (sum(len(a) for a in v['case'].get('args', [])), v['key']))
     res['disagreements'].sort(key=lambda d: len(d.get('line', '')) or 10 ** 6)
-    return res.finish(RULE, exhaustive={'alphabet15_len': done, 'alphabet_addr8_len': done2,
+    return res.finish(RULE, exhaustive={'alphabet15_len': done[0], 'alphabet_addr8_len': done[1],
                                         'ints': '-2..65537', 'all_code_points_proto_host_port': True,
-                                        'all_code_points_classify': full})
+                                        'all_code_points_classify': bool(full[0])})
 
 
 def deep_nested(depth):
